@@ -46,7 +46,14 @@ RULE = (
     "scheme, a binary file object given to RecordReader('jsonfile://', fileobj=...), stdin of a child process, and through "
     "reader-usage histories (peek then iterate again; iterate partly, break, iterate again; one corrupt record line - "
     "truncated or garbage - with the application catching the error and iterating the same reader again: the records "
-    "of all intact lines come back once, in order).  Oracle: (a) the raw text splits into standalone documents with "
+    "of all intact lines come back once, in order).  Tier sizes: quick = 6 configurations, interleavings up to length 4 (130 "
+    "orders), 7 refusal patterns, rewrite histories of 2-8 writes, 16 turnover rounds x 3 layouts, second reading route and "
+    "reader usage sampled; thorough = 12 configurations (indent 1, 4, 8 added), interleavings up to length 5 (400 orders), "
+    "EVERY refusal pattern of length 2-5 over B/G/O with a refused and a good record (300), rewrite histories up to 300 "
+    "writes (across the 256-record mark of a batching writer), 48 turnover rounds x 5 layouts, sequences of up to 90 records "
+    "over up to 8 descriptors, grouped records of up to 6 members, gen's 1 MiB / 65536-element pools for the first "
+    "repetition of every 'extreme' cell, and every file read through ALL routes (text, .gz, .bz2, binary file object) plus "
+    "a reader-usage history.  Oracle: (a) the raw text splits into standalone documents with "
     "json.JSONDecoder.raw_decode, each accepted by a strict RFC 8259 parser (NaN/Infinity tokens refused, duplicate keys "
     "refused) - one document per line without indent, multi-line documents indented by the requested width with indent; "
     "(b) the record documents correspond 1:1, in order, to the records written, their keys are the record's fields in "
@@ -79,7 +86,7 @@ ASSUMPTIONS = [
     "values come from the pools in verif/gen.py (lone surrogates outside U+DC80-DCFF and sub-second UTC offsets are not generated)",
 ]
 SHARDS = {"quick": 8, "thorough": 16}
-BUDGET_S = {"quick": 150, "thorough": 900}
+BUDGET_S = {"quick": 150, "thorough": 1800}
 
 TEXT_TYPES = ("string", "wstring")
 INT_TYPES = ("varint", "filesize", "uint16", "uint32", "unix_file_mode")
@@ -89,6 +96,25 @@ SUPPORTED = SUPPORTED_SCALARS + [t + "[]" for t in SUPPORTED_SCALARS]
 META_KEYS = ("_source", "_classification", "_generated", "_version")
 MARKER_KEYS = ("_type", "_recorddescriptor")
 CONFIGS = [(d, i) for d in (True, False) for i in (None, 0, 2)]
+# thorough tier only (appended: the indices of the six DESIGN configurations stay): more indent widths
+CONFIGS += [(d, i) for d in (True, False) for i in (1, 4, 8)]
+INDENTED_QUICK = (1, 2, 4, 5)
+INDENTED_DEEP = (1, 2, 4, 5, 6, 7, 8, 9, 10, 11)
+
+
+def indented(ctx, i):
+    pool = INDENTED_QUICK if ctx.quick else INDENTED_DEEP
+    return pool[i % len(pool)]
+
+
+def fail_patterns(deep):
+    """B = refused record, G = good record of that type, O = good record of another type.  quick: 7 hand-picked
+    patterns; thorough: EVERY pattern of length 2..5 with at least one refused and one good record (300)."""
+    if not deep:
+        return ["BG", "BGG", "BBG", "GBG", "BOG", "BGOG", "OBGB"]
+    import itertools
+
+    return ["".join(p) for n in (2, 3, 4, 5) for p in itertools.product("BGO", repeat=n) if "B" in p and len(set(p)) > 1]
 JQ = "/usr/bin/jq"
 
 ANCHORS = [
@@ -122,17 +148,17 @@ class JBuilder(gen.Builder):
         return super().value(ftype, vc, depth)
 
 
-def build_sequence(seed, thorough, focus=None):
+def build_sequence(seed, thorough, focus=None, deep=False):
     rng = random.Random(seed)
     b = JBuilder(rng, thorough=thorough, max_depth=0)
     extreme = bool(focus and focus[1] == "extreme")
-    n_descs = 1 if extreme else rng.choice([1, 1, 2, 3])
+    n_descs = 1 if extreme else rng.choice([1, 1, 2, 3, 5, 8] if deep else [1, 1, 2, 3])
     descs = []
     for i in range(n_descs):
         must = [focus[0]] if (focus and i == 0) else []
         nf = rng.choice([0, 1, 2, 3, 4, 6] if extreme else [0, 1, 2, 3, 4, 6, 9, 12])
         descs.append(b.descriptor(must=must, nfields=max(nf, len(must)), types=SUPPORTED))
-    n_records = 2 if extreme else rng.choice([1, 2, 3, 5, 8, 13])
+    n_records = 2 if extreme else rng.choice([1, 2, 3, 5, 8, 13, 21, 40, 90] if deep else [1, 2, 3, 5, 8, 13])
     records = []
     for j in range(n_records):
         d = descs[0] if (focus and j == 0) else rng.choice(descs)
@@ -144,11 +170,12 @@ def build_sequence(seed, thorough, focus=None):
     return records
 
 
-def same_name_orders():
-    """Every interleaving of length 2..4 of 2 or 3 same-name descriptors that uses at least two of them."""
+def same_name_orders(maxlen=4):
+    """Every interleaving of length 2..maxlen of 2 or 3 same-name descriptors that uses at least two of them
+    (maxlen 4: 130 orders, quick; maxlen 5: 400 orders, thorough)."""
     import itertools
 
-    return [(k, list(seq)) for k in (2, 3) for n in (2, 3, 4) for seq in itertools.product(range(k), repeat=n) if len(set(seq)) >= 2]
+    return [(k, list(seq)) for k in (2, 3) for n in range(2, maxlen + 1) for seq in itertools.product(range(k), repeat=n) if len(set(seq)) >= 2]
 
 
 def _other_type(rng, t):
@@ -263,7 +290,7 @@ def expected_flat(gname, members):
     return observe.normalise(["rec", str(gname), fields, slots])
 
 
-def build_grouped(seed):
+def build_grouped(seed, deep=False):
     """1-4 records, most of them GroupedRecords of 1-3 members over the JSON-supported types; members share some field
     names (with other values and sometimes other types) and carry distinct metadata.  -> (records, expected observations)"""
     import datetime as _dt
@@ -281,7 +308,7 @@ def build_grouped(seed):
             expected.append(observe.normalise(observe.obs(r)))
             continue
         members = []
-        for i in range(rng.randint(1, 3)):
+        for i in range(rng.randint(1, 6 if deep else 3)):
             fnames = rng.sample(pool, rng.randint(1, 4))
             d = RecordDescriptor(gen.rand_typename(rng), [(rng.choice(SUPPORTED), fn) for fn in fnames])
             m = b.record(d)
@@ -315,65 +342,65 @@ def teardown(ctx):
 
 def generate(ctx):
     idx = 0
-    reps = ctx.scale(4, 18)
+    reps = ctx.scale(6, 24)
     allcells = cells()
     for rep in range(reps):
         for t, vc in allcells:
             if vc == "extreme" and rep > 1:
                 continue
             # every cell meets the read-back configuration (0), the fallback configuration (3) and one indented one
-            cfg = (0, 3, (1, 2, 4, 5)[(idx + rep // 3) % 4])[rep % 3]
+            cfg = (0, 3, indented(ctx, idx + rep // 3))[rep % 3]
             if ctx.mine(idx):
                 yield {"k": "cell", "t": t, "vc": vc, "cfg": cfg, "via": ("uri", "path", "pathl")[(idx // 7 + rep) % 3],
-                       "s": subseed("c14", ctx.seed, "cell", t, vc, rep)}
+                       "s": subseed("c14", ctx.seed, "cell", t, vc, rep), "big": bool(not ctx.quick and vc == "extreme" and rep == 0)}
             idx += 1
     # same-name family: every interleaving of 2..4 records of 2-3 descriptors that share a name but not a field list,
     # under the read-back configuration, the fallback configuration and one indented configuration
     idx = 0
-    for rep in range(ctx.scale(1, 6)):
-        for j, (k, order) in enumerate(same_name_orders()):
-            for cfg in (0, 3, (1, 2, 4, 5)[(j + rep) % 4]):
+    for rep in range(ctx.scale(1, 3)):
+        for j, (k, order) in enumerate(same_name_orders(ctx.scale(4, 5))):
+            for cfg in (0, 3, indented(ctx, j + rep)):
                 if ctx.mine(idx + 5):
                     yield {"k": "same", "kk": k, "order": order, "cfg": cfg, "via": ("uri", "path", "pathl")[(j + rep) % 3],
                            "s": subseed("c14", ctx.seed, "same", k, tuple(order), rep)}
                 idx += 1
     # identifier-coincident family: same name AND same hash, different field lists, every interleaving (+ A A B B A B)
     idx = 0
-    for rep in range(ctx.scale(1, 6)):
-        for j, (k, order) in enumerate(same_name_orders() + [(2, [0, 0, 1, 1, 0, 1]), (3, [0, 0, 1, 1, 2, 0, 1, 2])]):
-            for cfg in (0, 3, (1, 2, 4, 5)[(j + rep) % 4]):
+    for rep in range(ctx.scale(1, 3)):
+        for j, (k, order) in enumerate(same_name_orders(ctx.scale(4, 5)) + [(2, [0, 0, 1, 1, 0, 1]), (3, [0, 0, 1, 1, 2, 0, 1, 2])]):
+            for cfg in (0, 3, indented(ctx, j + rep)):
                 if ctx.mine(idx + 2):
                     yield {"k": "coin", "kk": k, "order": order, "cfg": cfg, "via": ("uri", "path", "pathl")[(j + rep + 1) % 3],
                            "s": subseed("c14", ctx.seed, "coin", k, tuple(order), rep)}
                 idx += 1
     # write histories (1): one record object written repeatedly, modified between the writes
     vias = ("uri", "path", "pathl", "direct")
-    for i in range(ctx.scale(24, 200)):
-        cfg = (0, 3, 0, 3, (1, 2, 4, 5)[i % 4])[(i + ctx.shard) % 5]
-        yield {"k": "rewrite", "cfg": cfg, "via": vias[(i + ctx.shard) % 4], "rdump": bool(i % 16 == 0 and cfg in (0, 3)),
-               "s": subseed("c14", ctx.seed, "rewrite", ctx.shard, i)}
+    for i in range(ctx.scale(40, 300)):
+        cfg = (0, 3, 0, 3, indented(ctx, i))[(i + ctx.shard) % 5]
+        yield {"k": "rewrite", "cfg": cfg, "via": vias[(i + ctx.shard) % 4], "rdump": bool(i % 10 == 0 and cfg in (0, 3)),
+               "s": subseed("c14", ctx.seed, "rewrite", ctx.shard, i), "deep": not ctx.quick}
     # write histories (2): records the encoder refuses, the application carries on with the same writer
     idx = 0
-    for rep in range(ctx.scale(2, 8)):
+    for rep in range(ctx.scale(2, 3)):
         for fk in ("hugeint", "hugeint-list", "legacy-ip", "nested"):
-            for j, pat in enumerate(("BG", "BGG", "BBG", "GBG", "BOG", "BGOG", "OBGB")):
-                for cfg in (0, 3, (1, 2, 4, 5)[(j + rep) % 4]):
+            for j, pat in enumerate(fail_patterns(not ctx.quick)):
+                for cfg in (0, 3, indented(ctx, j + rep)):
                     if ctx.mine(idx + 1):
                         yield {"k": "fail", "fk": fk, "pat": pat, "cfg": cfg, "via": vias[(j + rep + idx) % 4],
                                "s": subseed("c14", ctx.seed, "fail", fk, pat, cfg, rep)}
                     idx += 1
     # descriptor turnover: one type name, changing layouts, descriptors released and their addresses re-used
-    for i in range(ctx.scale(3, 16)):
-        yield {"k": "turnover", "cfg": (0, 3)[(i + ctx.shard) % 2], "rounds": 16, "n": 3, "via": "direct",
+    for i in range(ctx.scale(4, 12)):
+        yield {"k": "turnover", "cfg": (0, 3)[(i + ctx.shard) % 2], "rounds": ctx.scale(16, 48), "n": ctx.scale(3, 5), "via": "direct",
                "s": subseed("c14", ctx.seed, "turnover", ctx.shard, i)}
     # grouped records: stored as their flat view
-    for i in range(ctx.scale(20, 150)):
-        yield {"k": "group", "cfg": (0, 3, 0, 3, (1, 2, 4, 5)[i % 4])[(i + ctx.shard) % 5], "via": ("uri", "path", "pathl")[i % 3],
-               "s": subseed("c14", ctx.seed, "group", ctx.shard, i)}
-    nmix = ctx.scale(80, 700)
+    for i in range(ctx.scale(30, 250)):
+        yield {"k": "group", "cfg": (0, 3, 0, 3, indented(ctx, i))[(i + ctx.shard) % 5], "via": ("uri", "path", "pathl")[i % 3],
+               "s": subseed("c14", ctx.seed, "group", ctx.shard, i), "deep": not ctx.quick}
+    nmix = ctx.scale(150, 1000)
     for i in range(nmix):
-        yield {"k": "mix", "cfg": (i + ctx.shard) % len(CONFIGS), "via": ("uri", "path", "pathl")[i % 3],
-               "s": subseed("c14", ctx.seed, "mix", ctx.shard, i)}
+        yield {"k": "mix", "cfg": (i + ctx.shard) % (6 if ctx.quick else len(CONFIGS)), "via": ("uri", "path", "pathl")[i % 3],
+               "s": subseed("c14", ctx.seed, "mix", ctx.shard, i), "deep": not ctx.quick}
 
 
 # ---- strict / lenient JSON parsing --------------------------------------------------------------------
@@ -633,7 +660,8 @@ def history_rewrite(ctx, case, w, note):
     other = b.record(b.descriptor(nfields=rng.randint(1, 3), types=SUPPORTED, allow_keyword=False))
     written = []
     stream = note.get("stream")
-    n = rng.choice([2, 3, 5, 8])
+    # thorough: long histories too, across the 256-record mark a batching writer would use
+    n = rng.choice([2, 3, 5, 8, 20, 64, 257, 300] if case.get("deep") else [2, 3, 5, 8])
     for i in range(n):
         setattr(rec, seqname, i)
         if i:
@@ -981,9 +1009,10 @@ def execute(ctx, case):
             ctx.event("coincident_family_skipped:" + why)
             return
     elif case["k"] == "group":
-        records, written = build_grouped(case["s"])
+        records, written = build_grouped(case["s"], bool(case.get("deep")))
     else:
-        records = build_sequence(case["s"], thorough=False, focus=focus)
+        big = bool(case.get("big"))  # thorough, first repetition of an 'extreme' cell: gen's 1 MiB / 65536-element pools
+        records = build_sequence(case["s"], thorough=big, focus=focus, deep=bool(case.get("deep")))
     ctx.ev()
     cfgname = "desc=%s/indent=%s" % ("on" if descriptors else "off", indent)
     for r in records:
@@ -1266,12 +1295,15 @@ def check_read(ctx, RecordReader, path, case, records, written, descriptors, cfg
     # the other reading routes of the same file must give the same records
     if len(written) and not path.endswith(".rest.json"):
         sel = ctx.state["read_checks"] = ctx.state.get("read_checks", 0) + 1
-        if sel % 2 == 0:
+        if not ctx.quick:
+            for route in ("gz", "bz2", "fileobj"):
+                read_other_route(ctx, RecordReader, path, route, written, descriptors, base)
+        elif sel % 2 == 0:
             route = ("gz", "bz2", "fileobj")[(sel // 2) % 3]
             read_other_route(ctx, RecordReader, path, route, written, descriptors, base)
         if sel % (60 if ctx.quick else 150) == 7:
             read_other_route(ctx, RecordReader, path, "stdin-child", written, descriptors, base)
-        if len(written) >= 2 and sel % 3 == 1:
+        if len(written) >= 2 and (sel % 3 == 1 or not ctx.quick):
             check_reader_usage(ctx, RecordReader, path, text, written, descriptors, base, sel // 3)
 
 
@@ -1546,7 +1578,7 @@ def finish(ctx):
     ctx.state["reach"].into(ctx)
     if ctx.shard == 0:
         ctx.note("matrix_cells_expected", len(cells()))
-        ctx.note("same_name_orders_enumerated_per_configuration", len(same_name_orders()))
+        ctx.note("same_name_orders_enumerated_per_configuration", len(same_name_orders(ctx.scale(4, 5))))
         ctx.require(ctx.events.get("same_name_sequences", 0) > 0, "no same-name descriptor sequence was run")
         ctx.require(ctx.events.get("coincident_sequences", 0) > 0, "no identifier-coincident descriptor sequence was run "
                     "(the variants did not share an identifier on this tree)")
